@@ -9,6 +9,7 @@ if ! git apply --check "$d/patch.diff" 2>/dev/null; then echo "PATCH-DOES-NOT-AP
 git apply "$d/patch.diff"
 trap 'cd /repo && git checkout -- . ' EXIT
 rc=0
+if [ "$(du -sm "$(go env GOCACHE)" 2>/dev/null | cut -f1)" -gt 40000 ] 2>/dev/null; then go clean -cache; fi
 for p in "$@"; do
   out=$(cd /verif && ./check "$p" ${TIER:-quick} 2>&1)
   r=$?
